@@ -682,6 +682,9 @@ class Unit:
                 raise Undecided('template error: unknown section %s' % kind)
         # attrs
         attrs = [a for a in it.attrs if not DROP_ATTRS.match(a)]
+        if opts.get('features') == 'on':
+            # a function of the default feature set: verified as compiled by default (the single-file verifier run knows no cargo features)
+            attrs = [a for a in attrs if not re.match(r'#\[\s*cfg\(\s*feature\b', a)]
         for a in attrs:
             out.emit(a, {'kind': 'src', 'file': rel, 'line': src_line})
         for s in secs.get(('attr', None), []):
